@@ -261,9 +261,13 @@ func (pl *PerIPLimiter) Allow(ip string) bool {
 		limiter = NewTokenBucket(pl.rate, pl.burst)
 		pl.limiters[ip] = limiter
 	}
+	// Take the token before releasing the lock: a concurrent cleanup must not
+	// drop this (still full) bucket between the lookup and the decision, or
+	// the next caller starts over with a fresh burst.
+	allowed := limiter.Allow()
 	pl.mu.Unlock()
 
-	return limiter.Allow()
+	return allowed
 }
 
 // cleanup removes limiters that are at max capacity (inactive)
@@ -363,9 +367,11 @@ func (pol *PerOperationLimiter) Allow(ip string, opType OperationType) bool {
 		limiter = NewTokenBucket(rate, burst)
 		ipLimiters[opType] = limiter
 	}
+	// Take the token before releasing the lock (see PerIPLimiter.Allow)
+	allowed := limiter.Allow()
 	pol.mu.Unlock()
 
-	return limiter.Allow()
+	return allowed
 }
 
 // cleanup removes old entries
